@@ -949,11 +949,11 @@ _EXAMPLES_FF = list(FIXED_FF.values())
 SUBCHECKS = [
     SubCheck("gate_special", None, oracle_gate, quick=0, thorough=0, shards_quick=4, shards_thorough=4,
              enumerate=special_gate_cases, exhaustive_in=("quick", "thorough")),
-    SubCheck("gate", _gate_case(), oracle_gate, quick=3000, thorough=300000, shards_quick=8, shards_thorough=16,
+    SubCheck("gate", _gate_case(), oracle_gate, quick=3000, thorough=150000, shards_quick=8, shards_thorough=16,
              essential={"direct": 0.2, "decomposed": 0.2, "controlled": 0.1}, examples=_EXAMPLES_GATE),
-    SubCheck("unitary", _unitary_case(), oracle_unitary, quick=1600, thorough=150000, shards_quick=6, shards_thorough=16,
+    SubCheck("unitary", _unitary_case(), oracle_unitary, quick=1600, thorough=80000, shards_quick=6, shards_thorough=16,
              essential={"needs_decomposition": 0.3, "version=3.0": 0.3, "version=2.0": 0.3}),
-    SubCheck("feedforward", _ff_case(), oracle_ff, quick=2400, thorough=250000, shards_quick=8, shards_thorough=16,
+    SubCheck("feedforward", _ff_case(), oracle_ff, quick=2400, thorough=120000, shards_quick=8, shards_thorough=16,
              essential={"classical_control": 0.2, "inverted_multi_measurement": 0.08, "needs_decomposition": 0.2,
                         "cc_fallback_2q": 0.08, "cc_fallback_branching": 0.12,
                         "version=3.0": 0.25, "version=2.0": 0.25}, examples=_EXAMPLES_FF),
